@@ -1,5 +1,5 @@
 """Per-property dynamic checks (correspondence + monitors + targeted generators)."""
-import json, os, random, re, subprocess, sys
+import json, os, random, re, subprocess, sys, time
 from common import *
 import driver, history, monitors, runner
 
@@ -40,6 +40,7 @@ def _sched_worker(args):
             info = r.describe()
             info['seed'] = seed
             info['states_seen'] = r.states_seen
+            info['kill_views'] = r.kill_views
             info['final_state'] = r.final_state
             info['final_events_n'] = len(r.final_events or [])
             info['init_events'] = r.init_events
@@ -326,6 +327,10 @@ def mon_C04_sched(info):
                 present = [e in finals for e in o['appended']]
                 if any(present) and not all(present):
                     out.append(('partially_applied', (o['req'] or {}).get('k'), present))
+    # killed between system calls before its commit point (the single write / the rename): nothing a reader sees may change
+    for (cmd, was, before, after) in info.get('kill_views', []):
+        if was in ('start', 'locked', 'append', 'tmp', 'rename') and before is not None and after != before:
+            out.append(('view_changed_by_a_kill_before_commit', cmd, was, 'items %d -> %s' % (len(before), 'unreadable' if after is None else len(after))))
     return out
 
 
@@ -550,15 +555,102 @@ def check_C03(ctx):
     sched_check(ctx, n // 3, {'nwriters': 3, 'nreaders': 1, 'kills': 0.05, 'tears': 0.3, 'strip_newline': True, 'pre_steps': 8}, mon_sched_common)
     # a kill during a rewrite (compact / plan / repair) must not block later rewrites
     sched_check(ctx, n // 3, {'nwriters': 1, 'nreaders': 0, 'kills': 0.3, 'tears': 0.3, 'fixed': ['compact', 'plan', 'compact'], 'pre_steps': 8}, mon_rewrite_health)
+    big_torn_tails(ctx)
+
+
+def big_torn_tails(ctx):
+    """Torn tails of every size (a crashed writer's unterminated last line: garbage, or a long JSON prefix): reads
+    work, the next mutation succeeds and is visible, and everything acknowledged before is still there."""
+    n = 0
+    for size in (7, 500, 5000, 65530, 65537, 70000, 150000, 1200000):
+        for shape in ('json_prefix', 'garbage'):
+            st = Store()
+            try:
+                ids = []
+                for k in range(3):
+                    rc, out, _ = st.run(['--json', 'new', 'task'], stdin=json.dumps({'title': 'kept %d' % k}).encode())
+                    ids.append(json.loads(out)['id'])
+                tail = ('{"type":"new_task","ts":"2026-01-01T00:00:00Z","data":{"id":"TORN00","uuid":"u","epic_id":"","state":"todo","title":"torn","body":"' + 'x' * size) if shape == 'json_prefix' else 'g' * size
+                with open(st.log, 'ab') as f:
+                    f.write(tail.encode())
+                n += 1
+                problems = []
+                rc0, out0, err0 = st.run(['--json', 'list', '--all'])
+                if rc0 != 0 or sorted(t['id'] for t in json.loads(out0)) != sorted(ids):
+                    problems.append(('read after the crash', rc0, err0.decode()[:120]))
+                for later, stdin in ((['--json', 'new', 'task'], b'{"title":"after the crash"}'), (['set', ids[0]], b'{"state":"done"}'), (['--agent', 'a', 'claim'], None)):
+                    rc, out, err = st.run(later, stdin=stdin)
+                    rc1, out1, err1 = st.run(['--json', 'list', '--all'])
+                    if rc != 0 or rc1 != 0:
+                        problems.append((' '.join(later), rc, err.decode()[:120], rc1, err1.decode()[:120]))
+                        break
+                    got = [t['id'] for t in json.loads(out1)]
+                    if not set(ids) <= set(got) or 'TORN00' in got:
+                        problems.append((' '.join(later), 'acknowledged items missing or torn item visible', got))
+                        break
+                if problems:
+                    ctx.violations.append(('monitor', 'after a torn tail of %d bytes (%s) the store does not recover: %s' % (size, shape, problems[:2]),
+                                           {'kind': 'cli', 'commands': ['new task x3', 'append %d bytes of %s without newline to plans.jsonl' % (size, shape), 'list --all', 'new task', 'set', 'claim', 'list --all'],
+                                            'problems': problems}))
+                    return
+            finally:
+                st.close()
+    ctx.cov['big_torn_tails'] = n
+
+
+def busy_after_commit(ctx):
+    """Somebody else grabs the lock the moment a command releases it: the command has committed, so it must
+    still succeed (or, if it fails, have written nothing)."""
+    import sched, fcntl
+    n = 0
+    for name in ('set --json', 'claim id', 'claim oldest', 'new --json', 'sequence --json', 'prune --yes --json', 'compact --json'):
+        st = Store()
+        try:
+            ids = []
+            for k in range(3):
+                rc, out, _ = st.run(['--json', 'new', 'task'], stdin=json.dumps({'title': 't%d' % k, 'state': 'done' if k == 2 else 'todo'}).encode())
+                ids.append(json.loads(out)['id'])
+            cmd = {'set --json': (['--agent', 'a', '--json', 'set', ids[0]], b'{"title":"changed","state":"doing"}'),
+                   'claim id': (['--agent', 'a', '--json', 'claim', ids[0]], None), 'claim oldest': (['--agent', 'a', '--json', 'claim'], None),
+                   'new --json': (['--json', 'new', 'task'], b'{"title":"fresh"}'), 'sequence --json': (['--json', 'sequence', ids[0], ids[1]], None),
+                   'prune --yes --json': (['--json', 'prune', '--yes'], None), 'compact --json': (['--json', 'compact'], None)}[name]
+            before = st.read_log()
+            ctl = sched.Controller(st)
+            lockf = None
+            try:
+                p = ctl.launch('w', {'k': name}, cmd[0], cmd[1], 'lock.released')
+                if p.at is not None:
+                    lockf = open(os.path.join(st.ergodir, 'lock'), 'a')
+                    fcntl.flock(lockf, fcntl.LOCK_EX)          # the contender owns the lock from here on
+                    while p.at is not None:
+                        ctl.release(p)
+            finally:
+                ctl.close()
+                if lockf:
+                    lockf.close()
+            n += 1
+            after = st.read_log()
+            if p.rc != 0 and after != before:
+                ctx.violations.append(('monitor', '`%s` exited %s (%s) although its events are in the log' % (name, p.rc, (p.err or b'').decode()[:100].strip()),
+                                       {'kind': 'schedule', 'commands': ['new task x3', '%s parked at lock.released' % name, 'another process takes .ergo/lock', 'resume'],
+                                        'log_grew_by': len(after) - len(before), 'stderr': (p.err or b'').decode()[:300]}))
+        finally:
+            st.close()
+    ctx.cov['busy_after_commit'] = n
 
 
 def check_C04(ctx):
     n = 90 if ctx.quick() else 1200
     sched_check(ctx, n, {'nwriters': 4, 'nreaders': 0, 'kills': 0.22, 'tears': 0.0}, mon_C04_sched)
+    # rewrites (compact on a store with pruned items, plan, prune) killed at every step of the tmp + rename protocol
+    sched_check(ctx, n // 2, {'nwriters': 0, 'nreaders': 0, 'kills': 0.45, 'tears': 0.0, 'fixed': ['compact', 'plan', 'prune', 'compact'], 'pre_steps': 14,
+                              'pre_profile': {'weights': {'new': 40, 'set': 40, 'prune': 12, 'compact': 0, 'malformed': 0, 'plan': 0},
+                                              'states': ['done', 'canceled', 'todo', 'doing']}}, mon_C04_sched)
     write_syscall_probe(ctx, 'C04')
 
 
 def check_C13(ctx):
+    legacy_store_races(ctx)
     n = 90 if ctx.quick() else 1200
     sched_check(ctx, n, {'nwriters': 3, 'nreaders': 3}, mon_C13_sched)
     sched_check(ctx, n // 2, {'nwriters': 1, 'nreaders': 3, 'fixed': ['compact', 'plan'], 'pre_steps': 10}, mon_C13_sched)
@@ -572,8 +664,50 @@ def check_C13(ctx):
         ctx.cov['exhaustive_space'] = 'every reader start time (3 reader steps) relative to every step of one writer (5 steps): %d interleavings x 4 shapes' % len(orders)
 
 
+def stale_stamp_schedules(ctx):
+    """A command parked just before it takes the lock while another process updates the same item: whatever
+    the parked command then writes must not carry a stamp older than what is already in the log - otherwise
+    compaction (which keeps one stamp per field) moves updated_at / claimed_at backwards."""
+    import sched
+    n = 0
+    victims = [('claim oldest', ['--agent', 'zed', '--json', 'claim'], None),
+               ('claim id', None, None),
+               ('set title', None, b'{"title":"renamed while parked"}'),
+               ('set state', None, b'{"state":"doing"}')]
+    for name, vargs, vstdin in victims:
+        st = Store()
+        try:
+            rc, out, _ = st.run(['--json', 'new', 'task'], stdin=b'{"title":"B","state":"blocked"}')
+            b = json.loads(out)['id']
+            args = vargs if vargs is not None else (['--agent', 'zed', '--json', 'claim', b] if name == 'claim id' else ['--agent', 'zed', 'set', b])
+            ctl = sched.Controller(st)
+            try:
+                p = ctl.launch('w', {'k': name}, args, vstdin, 'lock.attempt')
+                time.sleep(0.01)
+                st.run(['set', b], stdin=b'{"state":"todo"}')
+                time.sleep(0.01)
+                while p.at is not None:
+                    ctl.release(p)
+            finally:
+                ctl.close()
+            n += 1
+            keys = ('state', 'claimed_by', 'claimed_at', 'title', 'body', 'created_at', 'updated_at')
+            before = json.loads(st.run(['--json', 'show', b])[1])
+            st.run(['compact'])
+            after = json.loads(st.run(['--json', 'show', b])[1])
+            diff = [(k, before.get(k), after.get(k)) for k in keys if before.get(k) != after.get(k)]
+            if diff:
+                ctx.violations.append(('monitor', 'compact changed what `show` reports after `%s` raced with another update: %s' % (name, diff),
+                                       {'kind': 'schedule', 'commands': ['new task B (blocked)', '%s parked at lock.attempt' % name, 'set B state=todo', 'resume', 'show B', 'compact', 'show B'],
+                                        'differences': diff}))
+        finally:
+            st.close()
+    ctx.cov['stale_stamp_schedules'] = n
+
+
 def check_C05(ctx):
     legacy_untitled_twins(ctx)
+    stale_stamp_schedules(ctx)
     tags = {'Events', 'Exit'} | ALL_OBS
     n, steps = sizes(ctx, (40, 30), (400, 45))
     prof = {'weights': {'compact': 14, 'new': 22, 'set': 34, 'claim': 10, 'seq': 10, 'prune': 7, 'plan': 5, 'seqrm': 2}}
@@ -782,6 +916,9 @@ def check_C16(ctx):
     tags = {'Reply', 'Exit'}
     n, steps = sizes(ctx, (48, 25), (500, 35))
     driver.history_check(ctx, tags, n, steps)
+    # replies vs the following read on identities that are easy to normalise by accident (padded, blank-looking)
+    driver.history_check(ctx, tags, n // 2, steps, profile={'weights': {'new': 30, 'set': 30, 'claim': 30, 'seq': 4, 'prune': 2, 'plan': 2, 'compact': 2},
+                                                            'odd_agent_p': 0.3, 'agent_p': 0.9})
     json_surface(ctx)
 
 
@@ -867,6 +1004,38 @@ def legacy_store_races(ctx):
                 ctl.close()
         finally:
             st.close()
+    # readers: the log path is resolved, then - before the file is opened - another command runs to completion
+    for other in (['compact'], ['prune', '--yes'], ['--json', 'new', 'task']):
+        for legacy in (True, False):
+            st = Store()
+            try:
+                for k in range(4):
+                    st.run(['new', 'task'], stdin=json.dumps({'title': 'item %d' % k, 'state': 'done' if k == 0 else 'todo'}).encode())
+                st.run(['prune', '--yes'])
+                if legacy:
+                    os.rename(st.log, os.path.join(st.ergodir, 'events.jsonl'))
+                shown0 = sorted(t['title'] for t in json.loads(st.run(['--json', 'list', '--all'])[1]))
+                ctl = sched.Controller(st)
+                try:
+                    p = ctl.launch('rlist', None, ['--json', 'list', '--all'], None, 'read.resolved')
+                    st.run(other, stdin=b'{"title":"other"}' if other[-1] == 'task' else None)
+                    while p.at is not None:
+                        ctl.release(p)
+                    n += 1
+                    shown1 = sorted(t['title'] for t in json.loads(st.run(['--json', 'list', '--all'])[1]))
+                    try:
+                        got = sorted(t['title'] for t in json.loads(p.out)) if p.rc == 0 else None
+                    except Exception:
+                        got = None
+                    if got not in (shown0, shown1):
+                        ctx.violations.append(('monitor', 'a reader that had resolved the log path while `%s` ran showed a state the store never passed through (%s store): rc=%s, %s items instead of %d' % (
+                            ' '.join(other), 'legacy' if legacy else 'plans.jsonl', p.rc, 'no' if got is None else len(got), len(shown0)),
+                                               {'kind': 'schedule', 'commands': ['store with 3 live items (%s)' % ('events.jsonl only' if legacy else 'plans.jsonl'), 'list --all parked at read.resolved', ' '.join(other), 'resume reader'],
+                                                'reader_rc': p.rc, 'reader_saw': got, 'before': shown0, 'after': shown1}))
+                finally:
+                    ctl.close()
+            finally:
+                st.close()
     ctx.cov['legacy_store_races'] = n
 
 
@@ -898,6 +1067,7 @@ def check_C19(ctx):
         ctx.violations.append(('mismatch', 'tree/layout model disagrees with the real list output',
                                {'kind': 'tree', 'output': (p.stdout + p.stderr)[-3000:], 'no_failing_input': True}))
     row_properties(ctx)
+    rows_complete_after_histories(ctx)
 
 
 def row_properties(ctx):
@@ -949,6 +1119,60 @@ def row_properties(ctx):
                 ctx.violations.append(('monitor', 'row property fails for %s text: %s' % (name, fails[:3]), {'kind': 'rows', 'text': texts[name], 'fails': fails[:5]}))
     finally:
         rpc.close()
+
+
+def rows_complete_after_histories(ctx):
+    """After command histories rich in re-parenting with odd epic spellings, prunes and plans: every item `--json list`
+    reports has exactly one row in `list --all` (id column), the default view shows every active item once, and the
+    summary line counts what the store holds."""
+    rpc = Rpc()
+    n = 0
+    try:
+        for k in range(10 if ctx.quick() else 120):
+            h = history.History(rpc, random.Random(ctx.seed * 409 + k))
+            h.profile = {'weights': {'new': 30, 'set': 45, 'claim': 6, 'seq': 6, 'prune': 4, 'plan': 4, 'compact': 2, 'seqrm': 1, 'malformed': 0},
+                         'states': ['todo', 'doing', 'done', 'canceled', 'blocked', 'error', 'todo']}
+            for _ in range(30):
+                r = h.gen_request()
+                if r['k'] == 'set' and h.rng.random() < 0.5:
+                    r['fields'] = dict(r['fields'], epic=h.epic_arg())      # re-parent a lot, with every spelling
+                    r['mode'] = 'json'
+                h.do(r)
+            rc, out, _ = h.store.run(['--json', 'list', '--all'])
+            rc2, out2, _ = h.store.run(['--json', 'list', '--epics'])
+            if rc != 0 or rc2 != 0:
+                h.close()
+                continue
+            items = json.loads(out) + json.loads(out2)
+            ids = sorted({t['id'] for t in items})
+            rc, text, _ = h.store.run(['list', '--all'])
+            rows = text.decode('utf-8', 'replace').splitlines()
+            n += 1
+            per = {i: len([r for r in rows if re.search(r'(^|[^A-Z2-7])' + i + r'\s*$', r)]) for i in ids}
+            wrong = {i: c for i, c in per.items() if c != 1}
+            if wrong:
+                dangling = [(t['id'], t.get('epic_id')) for t in items if t.get('epic_id') and t.get('epic_id') not in ids]
+                ctx.violations.append(('monitor', 'items without exactly one row in `list --all`: %s (items whose epic_id names no item: %s)' % (wrong, dangling[:3]),
+                                       {'kind': 'cli', 'commands': trace_cmds(h.trace), 'rows': rows[:60], 'json_ids': ids}))
+                h.close()
+                break
+            active = sorted(t['id'] for t in json.loads(out) if t['state'] in ('todo', 'doing', 'blocked', 'error'))
+            rc, text, _ = h.store.run(['list'])
+            rows = text.decode('utf-8', 'replace').splitlines()
+            miss = [i for i in active if len([r for r in rows if re.search(r'(^|[^A-Z2-7])' + i + r'\s*$', r)]) != 1]
+            if miss:
+                ctx.violations.append(('monitor', 'active items without exactly one row in the default `list`: %s' % miss[:5],
+                                       {'kind': 'cli', 'commands': trace_cmds(h.trace), 'rows': rows[:60]}))
+                h.close()
+                break
+            h.close()
+        ctx.cov['rows_complete_histories'] = n
+    finally:
+        rpc.close()
+
+
+def trace_cmds(trace):
+    return [{'args': t['args'], 'stdin': t['stdin'], 'rc': t['rc']} for t in trace]
 
 
 def check_C20(ctx):
@@ -1107,9 +1331,44 @@ def check_C09(ctx):
     driver.log_check(ctx, {'LiveSet', 'Tombs', 'Deps', 'RDeps', 'ReplayErr', 'PruneTargets'}, *sizes(ctx, (150, 30), (2000, 35)),
                      monitor=mon_gone)
     known_post_compact_reuse(ctx)
+    pruned_stays_pruned_on_odd_logs(ctx)
     sched_check(ctx, 40 if ctx.quick() else 400, {'nwriters': 0, 'nreaders': 0, 'fixed': ['prune', 'reopen', 'reopen'], 'pre_steps': 16,
                                                    'pre_profile': {'weights': {'new': 45, 'set': 45, 'prune': 0, 'compact': 0, 'malformed': 0, 'plan': 0, 'seq': 5},
                                                                    'states': ['done', 'canceled', 'done', 'todo']}}, mon_C09_sched)
+
+
+def pruned_stays_pruned_on_odd_logs(ctx):
+    """Hand-merged / hand-saved logs: the tombstone is the LAST line and lost its newline, or sits before later
+    events about the pruned id.  Whatever later commands run, the id stays absent and refused."""
+    n = 0
+    for later in (['new', 'task'], ['set', 'KEEPER'], ['--agent', 'a', 'claim'], ['sequence', 'KEEPER', 'OTHERX'], ['prune', '--yes'], ['compact']):
+        for strip_nl in (True, False):
+            st = Store()
+            try:
+                for i, state in (('PRUNED', 'done'), ('KEEPER', 'todo'), ('OTHERX', 'todo')):
+                    st.run(['new', 'task'], stdin=json.dumps({'title': i, 'state': state}).encode(), env={'ERGO_VERIF_IDS': i})
+                st.run(['prune', '--yes'])
+                data = st.read_log()
+                if not data.endswith(b'\n') or b'tombstone' not in data.splitlines()[-1]:
+                    continue
+                if strip_nl:
+                    with open(st.log, 'wb') as f:
+                        f.write(data[:-1])
+                stdin = b'{"title":"later"}' if later[0] in ('new', 'set') else None
+                rc, _, err = st.run(later, stdin=stdin)
+                n += 1
+                rc1, out1, _ = st.run(['--json', 'list', '--all'])
+                ids = [t['id'] for t in json.loads(out1)] if rc1 == 0 else None
+                rc2, _, _ = st.run(['--json', 'show', 'PRUNED'])
+                rc3, _, _ = st.run(['set', 'PRUNED'], stdin=b'{"title":"back"}')
+                if ids is None or 'PRUNED' in ids or rc2 == 0 or rc3 == 0:
+                    ctx.violations.append(('monitor', 'a pruned id came back after `%s` on a log whose last line is the tombstone%s' % (' '.join(later), ' without its newline' if strip_nl else ''),
+                                           {'kind': 'cli', 'commands': ['new task x3 (ids PRUNED KEEPER OTHERX)', 'prune --yes', 'strip final newline' if strip_nl else '-', ' '.join(later), 'list --all / show PRUNED / set PRUNED'],
+                                            'listed': ids, 'show_rc': rc2, 'set_rc': rc3}))
+                    return
+            finally:
+                st.close()
+    ctx.cov['pruned_stays_pruned_on_odd_logs'] = n
 
 
 def known_post_compact_reuse(ctx):
@@ -1200,6 +1459,7 @@ def check_C10(ctx):
     prof = {'weights': {'malformed': 10, 'set': 40, 'seq': 20, 'new': 25, 'plan': 8, 'claim': 12}, 'agent_p': 0.5}
     driver.history_check(ctx, tags, n, steps, profile=prof)
     failing_multi_field(ctx)
+    busy_after_commit(ctx)
 
 
 def failing_multi_field(ctx):
@@ -1249,18 +1509,32 @@ def plan_malformed(ctx):
             b'{"title":"x","tasks":[{"title":"a"},{"title":"a"}]}', b'{"title":"x","body":"  ","tasks":[{"title":"a"}]}',
             b'{"title":"x","tasks":[{"title":"a"}]}}', b'{"title":"x","tasks":[{"title":"a"}]}]', b'{"title":"x","tasks":[{"title":"a"}]} }{"title":"y","tasks":[{"title":"b"}]}',
             b'{"title":"x","tasks":[{"title":"a"}]}\n]\n', b'{"title":"x","tasks":[{"title":"a"}]} 1', b'{"title":"x","tasks":[{"title":"a"}]} null', b'{"title":"x","tasks":[{"title":"a"}]} "s"']
+    # a second value / junk far behind the first one (whatever buffer or size cap the reader uses, the whole of stdin counts)
+    one = b'{"title":"x","tasks":[{"title":"a"},{"title":"b","after":["a"]}]}'
+    for pad in (4096, 65536, 1 << 20, 10485760 - len(one) - 1, 10485760 - len(one), 10485760, 10485760 + 4096, 2 * 10485760 + 17):
+        docs.append(one + b' ' * pad + b'{"title":"y","tasks":[{"title":"c"}]}')
+        docs.append(one + b'\n' * pad + b']')
     st = Store()
     bad = []
     try:
         st.run(['new', 'task'], stdin=b'{"title":"pre"}')
         before = st.read_log()
         for d in docs:
-            rc, out, err = st.run(['--json', 'plan'], stdin=d)
+            rc, out, err = st.run(['--json', 'plan'], stdin=d, timeout=120)
             if rc == 0 or st.read_log() != before:
-                bad.append(d.decode())
-        ctx.cov['plan_malformed_docs'] = len(docs)
+                bad.append(d.decode() if len(d) < 2000 else '%s ... (%d bytes of whitespace) ... %s' % (d[:80].decode(), len(d) - 120, d[-40:].decode()))
+                before = st.read_log()
+        # the same reader serves new / set
+        for args in (['--json', 'new', 'task'], ['--json', 'set', 'NOSUCH']):
+            for pad in (65536, 10485760, 10485760 + 4096):
+                d = b'{"title":"padded"}' + b' ' * pad + b'{"title":"second"}'
+                rc, out, err = st.run(args, stdin=d, timeout=120)
+                if rc == 0 or st.read_log() != before:
+                    bad.append('%s: {"title":"padded"} + %d spaces + {"title":"second"}' % (' '.join(args), pad))
+                    before = st.read_log()
+        ctx.cov['plan_malformed_docs'] = len(docs) + 6
         for d in bad:
-            ctx.violations.append(('monitor', 'invalid plan payload accepted or wrote to the log', {'kind': 'plan-doc', 'doc': d}))
+            ctx.violations.append(('monitor', 'invalid payload (several JSON values / trailing junk) accepted or wrote to the log: %s' % d[:160], {'kind': 'plan-doc', 'doc': d}))
     finally:
         st.close()
 
@@ -1556,6 +1830,23 @@ def epics_order_deterministic(ctx):
         if len(outs) != 1 or len(outs2) != 1:
             ctx.violations.append(('monitor', 'list --epics output differs between runs on the same log',
                                    {'kind': 'log', 'log': [synth.render_event(e) for e in evs]}))
+    finally:
+        st.close()
+    # the same instant written in several time zones (hand-merged / imported logs): still one order, every run
+    st = Store()
+    try:
+        zones = [None, 330, 60, -480, 0, 330]
+        evs = [{'t': 'new_epic' if k % 2 else 'new_task', 'id': 'Z%05d' % k, 'uuid': 'u%d' % k, 'epic': '', 'state': 'todo', 'title': 'z%d' % k, 'body': '',
+                'at': [synth.EPOCH0 + 777, 0], 'zone': zones[k % len(zones)]} for k in range(14)]
+        synth.write_log(st.log, evs)
+        cmds = [['--json', 'list', '--epics'], ['list', '--epics'], ['--json', 'list', '--ready'], ['list', '--all']]
+        for c in cmds:
+            outs = {st.run(c)[1] for _ in range(8)}
+            if len(outs) != 1:
+                ctx.violations.append(('monitor', '`%s` output differs between runs on the same log (equal instants written with numeric offsets)' % ' '.join(c),
+                                       {'kind': 'log', 'log': [synth.render_event(e) for e in evs], 'distinct_outputs': len(outs)}))
+                break
+        ctx.cov['epics_order_runs'] = 10 + 8 * len(cmds)
     finally:
         st.close()
 
